@@ -154,7 +154,13 @@ def check_case(ctx, case):
                 # ties are decidable only between events of the same bin (identical inputs); |d| values of different bins
                 # that agree to within rounding may or may not tie in the implementation
                 ad = sorted((abs(v - mm), ob) for v, ob in zip(dd, obs) if v - mm != 0)
-                near = near or any(b[0] - a[0] < 1e-9 * b[0] and a[1] != b[1] for a, b in zip(ad, ad[1:]))
+
+                def mirror(b1, b2):
+                    # bins (i, j) with (A_i, B_i) == (B_j, A_j): log A_i - log B_i == -(log A_j - log B_j) bit for bit, whatever log() is used
+                    return mm == 0 and float(ra[b1]) == float(rb[b2]) and float(rb[b1]) == float(ra[b2])
+                near = near or any(b[0] - a[0] < 1e-9 * b[0] and a[1] != b[1] and not mirror(a[1], b[1]) for a, b in zip(ad, ad[1:]))
+                if any(a[1] != b[1] and a[0] == b[0] and mirror(a[1], b[1]) for a, b in zip(ad, ad[1:])):
+                    ctx.count("W_compared_with_mirrored_ties")
                 if near:
                     # ranks (ties or not) then depend on the last bits of log(): not decidable by an independent oracle
                     ctx.count("skipped:W_near_tie_or_near_null_median")
